@@ -49,41 +49,41 @@ struct PropSpec
 std::vector<PropSpec> const& props()
 {
     static std::vector<PropSpec> const v = {
-        {"C01", {{"lattice", 100}}, 3000, 150000, "exploration",
+        {"C01", {{"lattice", 100}}, 35000, 1400000, "exploration",
             "plans of scenario lattice (PLAIN / VEGAS on uniform, user and adapted grids / multi-channel with rational and adapted weights) driven by a scripted midpoint-lattice engine; non-trivial = VEGAS or multi-channel plan that reached the exactness comparison; distinct = distinct plan shape hashes"},
-        {"C02", {{"history", 55}, {"mpi", 10}, {"restart", 10}, {"poison", 10}, {"bins", 15}}, 4000, 200000, "exploration",
+        {"C02", {{"history", 55}, {"mpi", 10}, {"restart", 10}, {"poison", 10}, {"bins", 15}}, 50000, 2000000, "exploration",
             "runs whose complete call log is checked against every result field; non-trivial = more than one iteration, or zero-valued evaluations, or an injected fault; distinct = distinct plan shape hashes"},
-        {"C03", {{"restart", 85}, {"fscrash", 15}}, 1200, 60000, "fault_enumeration",
+        {"C03", {{"restart", 85}, {"fscrash", 15}}, 40000, 1600000, "fault_enumeration",
             "per plan every non-empty subset of the s-1 iteration boundaries (all 2^(s-1)-1 for s <= 6, 25 sampled beyond) is executed as interruption set, each interruption either clean or a kill inside the following iteration; non-trivial = plan whose reference run has at least two iterations; distinct = distinct plan shape hashes"},
-        {"C04", {{"mpi", 100}}, 1500, 80000, "exploration",
+        {"C04", {{"mpi", 100}}, 10000, 400000, "exploration",
             "shim-MPI runs (1..33 ranks) under seeded arrival order, reduction order and stalls, each iteration compared with the public serial iteration; non-trivial = more than one rank; distinct = distinct plan shape hashes (distinct interleavings reported separately)"},
-        {"C05", {{"durable", 55}, {"restart", 25}, {"rollback", 20}}, 4000, 200000, "exploration",
+        {"C05", {{"durable", 55}, {"restart", 25}, {"rollback", 20}}, 60000, 2400000, "exploration",
             "checkpoint objects (from runs, assembled through public constructors with corner values, empty with user state) serialised, destroyed and rebuilt, compared field by field and bit by bit; non-trivial = a restart happened; distinct = distinct plan shape hashes"},
-        {"C06", {{"poison", 85}, {"mpi", 15}}, 3000, 150000, "exploration",
+        {"C06", {{"poison", 85}, {"mpi", 15}}, 24000, 960000, "exploration",
             "paired runs: non-finite values injected at seeded calls vs. the same calls returning zero; non-trivial = at least one injected non-finite evaluation fired; distinct = distinct plan shape hashes"},
-        {"C07", {{"grid", 70}, {"history", 15}, {"restart", 15}}, 2500, 120000, "exploration",
+        {"C07", {{"grid", 70}, {"history", 15}, {"restart", 15}}, 18000, 720000, "exploration",
             "VEGAS runs with long refinement histories plus direct probes (u == 1, hand made data); invariants on every grid and point, equal-share bracket against a long double reference; non-trivial = every grid plan; distinct = distinct plan shape hashes"},
-        {"C08", {{"weights", 70}, {"history", 30}}, 3000, 150000, "exploration",
+        {"C08", {{"weights", 70}, {"history", 30}}, 60000, 2400000, "exploration",
             "multi-channel runs with up to 40 refinements plus direct probes of the refinement; probability-vector invariants and reference model; distinct = distinct plan shape hashes"},
-        {"C09", {{"select", 70}, {"history", 30}}, 3000, 150000, "exploration",
+        {"C09", {{"select", 70}, {"history", 30}}, 14000, 560000, "exploration",
             "selector draws forced to 0, largest-below-1, every cumulative boundary and neighbours, mid points; inside runs and on the selector type directly; distinct = distinct plan shape hashes"},
-        {"C10", {{"usage", 30}, {"history", 50}, {"poison", 20}}, 5000, 250000, "exploration",
+        {"C10", {{"usage", 30}, {"history", 50}, {"poison", 20}}, 60000, 2400000, "exploration",
             "draw counter per call under all engines and faults, stored generator vs. discard, engines with odd ranges against the predictor; distinct = distinct plan shape hashes"},
-        {"C11", {{"bins", 70}, {"restart", 15}, {"mpi", 15}}, 3000, 150000, "exploration",
+        {"C11", {{"bins", 70}, {"restart", 15}, {"mpi", 15}}, 40000, 1600000, "exploration",
             "projector adds logged and re-binned by an independent long double reference (conservation per bin, edges ambiguous within one rounding error), probe coordinates on edges / outside / non-finite; distinct = distinct plan shape hashes"},
-        {"C12", {{"protocol", 70}, {"mpi", 30}}, 2500, 120000, "exploration",
+        {"C12", {{"protocol", 70}, {"mpi", 30}}, 18000, 720000, "exploration",
             "interleaved history of integrand calls and callback invocations; user callback stop positions; built-in callback with target 0 on degenerate integrands and with targets placed between reference relative errors; distinct = distinct plan shape hashes"},
-        {"C15", {{"rollback", 100}}, 2500, 120000, "exploration",
+        {"C15", {{"rollback", 100}}, 50000, 2000000, "exploration",
             "operation histories over run / reload / rollback checked after every operation against the prefix-text model; distinct = distinct plan shape hashes"},
-        {"C16", {{"mpi", 100}}, 1500, 80000, "exploration",
+        {"C16", {{"mpi", 100}}, 10000, 400000, "exploration",
             "engine position intervals of all ranks per iteration under the scripted engine; distinct = distinct plan shape hashes"},
-        {"C17", {{"history", 50}, {"poison", 20}, {"select", 15}, {"bins", 15}}, 4000, 200000, "exploration",
+        {"C17", {{"history", 50}, {"poison", 20}, {"select", 15}, {"bins", 15}}, 60000, 2400000, "exploration",
             "per-call protocol state machine inside scripted map and integrand; distinct = distinct plan shape hashes"},
-        {"C18", {{"fscrash", 100}}, 600, 30000, "fault_enumeration",
+        {"C18", {{"fscrash", 100}}, 25000, 1000000, "fault_enumeration",
             "one traced execution per plan, every file system event boundary and byte prefix of every write evaluated as kill point (quick: all prefixes of writes up to 512 bytes, else first/last 64, 4096-byte boundaries and 256 seeded offsets); plus executed sequences of up to four kills and restarts; distinct = distinct plan shape hashes"},
-        {"C19", {{"history", 40}, {"restart", 30}, {"mpi", 30}}, 3000, 150000, "exploration",
+        {"C19", {{"history", 40}, {"restart", 30}, {"mpi", 30}}, 10000, 400000, "exploration",
             "bitwise chain of recorded states against the library's own refinement, points recomputed from the recorded state under the scripted engine; distinct = distinct plan shape hashes"},
-        {"C20", {{"modes", 100}}, 1200, 60000, "exploration",
+        {"C20", {{"modes", 100}}, 16000, 640000, "exploration",
             "the same plan under all four callback modes (serial and shim-MPI), with disk faults and failing std::cout; distinct = distinct plan shape hashes"},
     };
     return v;
@@ -345,20 +345,84 @@ int replay_in_child(std::string const& self, std::string const& file, std::strin
     return run_child({self, "replay", file, "--expect", prop + ":" + tag}, output);
 }
 
-// execution of a plan that may crash the process: done in a child
+struct ChildOut
+{
+    bool crashed = false;
+    bool hit = false;
+    bool same = true;     // repeated executions agreed on hash and verdict
+    u64 hash = 0;
+};
+
+// executes a plan (several times) in a forked child: a plan that aborts the process (assert of the
+// library, _GLIBCXX_ASSERTIONS) must not take the supervisor with it
+ChildOut exec_forked(Plan const& p, std::string const& prop, std::string const& tag, int repeat)
+{
+    ChildOut r;
+    int fds[2];
+    if (pipe(fds) != 0)
+    {
+        r.crashed = true;
+        return r;
+    }
+    std::fflush(stdout);
+    pid_t const pid = fork();
+    if (pid == 0)
+    {
+        close(fds[0]);
+        int const devnull = open("/dev/null", O_WRONLY);
+        dup2(devnull, 1);
+        dup2(devnull, 2);
+        u64 out[3] = {0, 0, 1};
+        for (int i = 0; i != repeat; ++i)
+        {
+            Report rep;
+            execute(p, rep);
+            bool const hit = has_finding(rep, prop, tag);
+            if (i == 0)
+            {
+                out[0] = rep.hash.h;
+                out[1] = hit;
+            }
+            else if (out[0] != rep.hash.h || out[1] != static_cast<u64>(hit))
+            {
+                out[2] = 0;
+            }
+        }
+        ssize_t const w = write(fds[1], out, sizeof out);
+        (void) w;
+        _exit(0);
+    }
+    close(fds[1]);
+    u64 in[3] = {0, 0, 0};
+    ssize_t const n = read(fds[0], in, sizeof in);
+    close(fds[0]);
+    int status = 0;
+    waitpid(pid, &status, 0);
+    if (n != static_cast<ssize_t>(sizeof in) || !WIFEXITED(status) || WEXITSTATUS(status) != 0)
+    {
+        r.crashed = true;
+        return r;
+    }
+    r.hash = in[0];
+    r.hit = in[1] != 0;
+    r.same = in[2] != 0;
+    return r;
+}
+
+bool crash_code(int rc) { return rc == 77 || rc >= 128; }
+
 bool fails_same(std::string const& self, Plan const& p, std::string const& prop, std::string const& tag,
     bool crash_class, std::string const& scratch)
 {
-    if (!crash_class)
+    if (tag == "sanitizer-report")
     {
-        Report rep;
-        execute(p, rep);
-        return has_finding(rep, prop, tag);
+        // needs the sanitizer flavour: exec it
+        spit(scratch, p.to_text());
+        std::string out;
+        return crash_code(replay_in_child(self, scratch, prop, tag, &out));
     }
-    spit(scratch, p.to_text());
-    std::string out;
-    int const rc = replay_in_child(self, scratch, prop, tag, &out);
-    return rc == 1;
+    ChildOut const c = exec_forked(p, prop, tag, 1);
+    return crash_class ? c.crashed : (!c.crashed && c.hit);
 }
 
 Plan minimise(std::string const& self, Plan p, std::string const& prop, std::string const& tag, bool crash_class,
@@ -420,7 +484,7 @@ Plan minimise(std::string const& self, Plan p, std::string const& prop, std::str
         {
             for (u64 target : {u64(2), u64(3), u64(8), p.calls[i] / 2})
             {
-                if (target >= p.calls[i]) continue;
+                if (target >= p.calls[i] || target < 2) continue;
                 Plan q = p;
                 q.calls[i] = target;
                 if (try_plan(q))
@@ -431,10 +495,10 @@ Plan minimise(std::string const& self, Plan p, std::string const& prop, std::str
             }
         }
         // smaller world
-        auto shrink_u = [&](u64 Plan::*field, std::vector<u64> const& cands) {
+        auto shrink_u = [&](u64 Plan::*field, std::vector<u64> const& cands, u64 lowest) {
             for (u64 c : cands)
             {
-                if (c >= p.*field) continue;
+                if (c >= p.*field || c < lowest) continue;
                 Plan q = p;
                 q.*field = c;
                 if (try_plan(q))
@@ -444,10 +508,10 @@ Plan minimise(std::string const& self, Plan p, std::string const& prop, std::str
                 }
             }
         };
-        shrink_u(&Plan::dims, {1, 2});
-        shrink_u(&Plan::bins, {2, 3, 4, 8, p.bins / 2});
-        shrink_u(&Plan::chan, {1, 2, 3, 4, p.chan / 2});
-        shrink_u(&Plan::P, {1, 2, 3, p.P / 2});
+        shrink_u(&Plan::dims, {1, 2}, 1);
+        shrink_u(&Plan::bins, {2, 3, 4, 8, p.bins / 2}, 2);
+        shrink_u(&Plan::chan, {1, 2, 3, 4, p.chan / 2}, 1);
+        shrink_u(&Plan::P, {1, 2, 3, p.P / 2}, 1);
         // simpler parts
         auto simpler = [&](void (*edit)(Plan&)) {
             Plan q = p;
@@ -639,7 +703,7 @@ int run_main(std::string const& self, std::string const& prop, int tier, u64 see
     };
 
     std::vector<W> ws;
-    int const san_workers = have_san ? std::max(1, jobs / 4) : 0;
+    int const san_workers = have_san ? std::max(1, jobs / 3) : 0;
     int const fast_workers = std::max(1, jobs - san_workers);
 
     // index i is a sanitizer index iff i % 16 == 15 (and a sanitizer binary exists)
@@ -685,7 +749,7 @@ int run_main(std::string const& self, std::string const& prop, int tier, u64 see
         w.out = work + "/san-" + std::to_string(j);
         w.start = static_cast<u64>(j);
         w.stride = static_cast<u64>(san_workers);
-        w.count = std::max<u64>(16, n / 16);   // the sanitizer flavour re-runs the first sixteenth
+        w.count = std::max<u64>(16, n / 32);   // the sanitizer flavour re-runs the first 1/32 of the indices
         ws.push_back(w);
     }
     for (auto& w : ws) spawn(w);
@@ -835,17 +899,14 @@ int run_main(std::string const& self, std::string const& prop, int tier, u64 see
         std::string const scratch = work + "/min.plan";
         std::string const binary = (f.tag == "sanitizer-report" && have_san) ? san_bin : self;
 
-        // gate 1: same plan twice more in this process (not for crashes), same hash and verdict
+        // gate 1: the same plan twice more (in one forked process), same hash and same verdict
         if (!crash)
         {
-            Report r1, r2;
-            execute(p, r1);
-            execute(p, r2);
-            if (r1.hash.h != r2.hash.h || !has_finding(r1, prop, f.tag) || !has_finding(r2, prop, f.tag))
+            ChildOut const c = exec_forked(p, prop, f.tag, 2);
+            if (c.crashed || !c.same || !c.hit)
             {
-                std::printf("MACHINERY: property=%s tag=%s run %llu does not reproduce in process (hash %llx / %llx)\n",
-                    prop.c_str(), f.tag.c_str(), (unsigned long long) f.idx, (unsigned long long) r1.hash.h,
-                    (unsigned long long) r2.hash.h);
+                std::printf("MACHINERY: property=%s tag=%s run %llu does not reproduce (crashed=%d same=%d hit=%d)\n",
+                    prop.c_str(), f.tag.c_str(), (unsigned long long) f.idx, c.crashed, c.same, c.hit);
                 ++machinery;
                 continue;
             }
@@ -863,7 +924,7 @@ int run_main(std::string const& self, std::string const& prop, int tier, u64 see
             (unsigned long long) f.idx, attempts));
         std::string out;
         int const rc = replay_in_child(binary, file, prop, f.tag, &out);
-        if (rc != 1)
+        if (crash ? !crash_code(rc) : rc != 1)
         {
             std::printf("MACHINERY: property=%s tag=%s replay of %s in a fresh process gave exit %d\n%s\n", prop.c_str(),
                 f.tag.c_str(), file.c_str(), rc, out.c_str());
